@@ -286,6 +286,7 @@ def main():
             "exhaustive": bool(getattr(mod, "EXHAUSTIVE", {}).get(a.tier, False)),
         },
         "independent_recheck": ({k: lc[k] for k in ("cmd", "rc", "wall_s")} | {"modules": len(lc["modules"])}) if lc else None,
+        "implementation_line_coverage": core.coverage_report(),
         "assumptions": getattr(mod, "ASSUMPTIONS", []),
         "wall_s": round(time.time() - t0, 2),
         "violations": violations,
